@@ -416,6 +416,8 @@ def jobs(prop, tier):
     if prop == 'C03':
         J('h_resp_cmdt', L=65600, prefix=8, windows=2)
         J('h_resp_cmdt', L=16000000, prefix=5, windows=1)
+    # a window of one segment and a slow originator: the whole transfer lasts longer than T2 although no single wait does
+    J('h_resp_cmdt', L=601, windows=1)
     J('h_resp_cmdt', L=181, session=7)
     J('h_orig_cmdt', L=181, holds=[1, 0, 1])
     # retransmission requests: the responder re-requests segments it already received
